@@ -61,7 +61,7 @@ static const long double LDX[] = { 1e309L, -1e400L, 3.5953862697246314e308L /* 2
 static const char *SV[] = { "", "abc", "a string of exactly forty characters !!!", "h\xc3\xa9llo", NULL };      /* the null pointer (a violation the formatter itself finds) only in the reporting and memory sweeps */
 static const wchar_t WBAD[] = { L'o', L'k', 0xd800, L'x', 0 };     /* not convertible in any locale: printf fails with EILSEQ */
 static const wchar_t *WV[] = { L"", L"wide", L"\xe9\x20ac", WBAD };
-static const wint_t WCV[] = { L'A', 0xe9, 0xd800, 0x200000, 0x7fffffff };     /* the last two: beyond Unicode, glibc still encodes them (5 and 6 bytes) */
+static const wint_t WCV[] = { L'A', 0xe9, 0xd800, 0x200000, 0x7fffffff, 0 };     /* the last two: beyond Unicode, glibc still encodes them (5 and 6 bytes) */
 static const int CV[] = { 'A', '%', 0x7f };
 
 /* several directives in one format: integer-class arguments travel as longs, doubles as doubles (separate register
@@ -350,7 +350,7 @@ int main(int argc, char **argv) {
                         snprintf(cls, sizeof cls, "ls,flags=%s,width=%s,prec=%s%s", fl[0] ? fl : "none", WID[wi][0] ? WID[wi] : "none", PRE[pi][0] ? PRE[pi] : "none", neg ? ",negative-star" : ""); one(fmt, T_WSTR, v, ns, a1, a2, 0, cls, vi, tier); }
                     if (pi == 0) {
                         for (int vi = 0; vi < 3; vi++) { Val v; v.i = CV[vi]; snprintf(fmt, sizeof fmt, "[%%%s%sc]", fl, WID[wi]); snprintf(cls, sizeof cls, "c,flags=%s,width=%s", fl[0] ? fl : "none", WID[wi][0] ? WID[wi] : "none"); one(fmt, T_CHAR, v, wi == WSTAR, a1, 0, 0, cls, vi, tier); }
-                        for (int vi = 0; vi < 5; vi++) { Val v; v.i = WCV[vi]; snprintf(fmt, sizeof fmt, "[%%%s%slc]", fl, WID[wi]); snprintf(cls, sizeof cls, "lc,flags=%s,width=%s", fl[0] ? fl : "none", WID[wi][0] ? WID[wi] : "none"); one(fmt, T_WINT, v, wi == WSTAR, a1, 0, 0, cls, vi, tier); }
+                        for (int vi = 0; vi < 6; vi++) { Val v; v.i = WCV[vi]; snprintf(fmt, sizeof fmt, "[%%%s%slc]", fl, WID[wi]); snprintf(cls, sizeof cls, "lc,flags=%s,width=%s", fl[0] ? fl : "none", WID[wi][0] ? WID[wi] : "none"); one(fmt, T_WINT, v, wi == WSTAR, a1, 0, 0, cls, vi, tier); }
                     }
                 }
             }
